@@ -159,6 +159,8 @@ def focused(tier):
     out.append(two_class_single("syscap=2 preempt resume", fam, c=1, K=2, prios=(1, 0), preempt="resume", system_capacity=2, features=["syscap", "preempt_prio"]))
     out.append(cfg("syscap=2 tandem block", fam, [node(c=1), node(c=1, cap=0)],
                    {"A": klass([ARR, None], [[1.0, 0.5], SRV2], route=matrix([[0.0, 1.0], [0.0, 0.0]]))}, K=K, system_capacity=2, features=["syscap", "blocking"]))
+    out.append(single("ps cap1 thr2 qcap=1", fam, c=1, K=K, srv=SRV2, nodekw={"cap": 1, "ps": True, "ps_threshold": 2}, features=["ps", "capacity"]))
+    out.append(single("ps cap3 thr1 qcap=0", fam, c=3, K=K, srv=SRV2, nodekw={"cap": 0, "ps": True}, features=["ps", "capacity"]))
     out.append(single("ps cap2 qcap=1", fam, c=2, K=K, srv=SRV2, nodekw={"cap": 1, "ps": True}, features=["ps", "capacity"]))
     return out
 
